@@ -419,6 +419,8 @@ def gen_cut(seed, opts=None):
         plan['faults'].append({'kind': 'cut', 'dir': _pick(rng, [(1, 'c2s'), (1, 's2c')]),
                                'offset': _pick(rng, [(1, rng.randint(0, 60)), (3, rng.randint(0, 1500))]),
                                'mode': _pick(rng, [(1, 'eof'), (1, 'reset')])})
+        if plan['faults'][-1]['mode'] == 'eof' and plan.get('framing') != 'ws' and rng.random() < 0.3:
+            plan['faults'][-1]['half_dead'] = True  # the peer half-closes and stops reading (its receive window stays shut)
         if plan.get('framing') == 'ws':
             plan['faults'][-1]['offset'] = rng.randint(0, 25)  # message framing: the link is lost in place of the n-th message
     elif kind == 'close':
